@@ -4,6 +4,10 @@ import json, os
 ROOT = os.path.dirname(os.path.dirname(os.path.abspath(__file__)))
 TECH = "bounded symbolic execution of go/ssa + SMT (z3; cvc5 cross-check in thorough), native replay of counterexamples"
 claimed = {
+ "C01": dict(level="Bounded symbolic model checking of the real udp/tcp coders: header lemmas on their full domain (every delta/length/extension class, every uint32, every stream length class), whole-message encode->decode round trip, Size/Encode agreement and short-buffer behaviour with symbolic option numbers, values, token, payload, code, type, MID; refusal of out-of-domain token/type/MID. Bounds on option count and byte lengths are stated in evidence.",
+             note="Trusted: gosym encoder (validated on every run by native path witnesses), z3/cvc5, the harness copy of the option registry. Known finding C01-type-4-255 (types 4..255 accepted; pinned by an existing test) is reported as KNOWN-FINDING.", ref="DESIGN.md §4 C01"),
+ "C20": dict(level="IsNoResponseCode over all 2^16 codes x all 2^32 option values and the ResponseWriter.SetResponse gate over every 0..4-byte option value and all codes 0..255, against the RFC 7967 class/bit table; solver refutes any deviation.",
+             note="Trusted: gosym encoder, z3/cvc5. Connection-level wiring is covered in C05's harness, not here.", ref="DESIGN.md §4 C20"),
  "C19": dict(level="Every input of EncodeBlockOption / DecodeBlockOption / SZX.Size / bufferSize ranges over its full machine type as a bit-vector; the RFC 7959 §2.2 layout is the oracle; the solver refutes every deviation. No bound inside 64-bit types.",
              note="Trusted: gosym encoder (cross-validated natively on every run by path witnesses), z3/cvc5. 32-bit builds outside.", ref="DESIGN.md §4 C19"),
 }
